@@ -118,7 +118,7 @@ def run_tlc(workdir, module, cfg, workers=None, timeout=1800, extra=(), java_opt
         shutil.rmtree(md, ignore_errors=True)
     out = p.stdout + p.stderr
     res = TLCResult(out, p.returncode, time.time() - t0)
-    if "java.lang.OutOfMemoryError" in out or "StackOverflowError" in out:
+    if "java.lang.OutOfMemoryError" in out or ("StackOverflowError" in out and not res.violated):
         raise Inconclusive("TLC resource failure:\n" + out[-2000:])
     if ("Parsing or semantic analysis failed" in out or "was not found" in out and "Error" in out) and not res.ok:
         raise Inconclusive("TLC could not load the specification:\n" + out[-3000:])
